@@ -337,3 +337,35 @@ class SignaturesOnlyBounded:
 
     def raises_BTClibTypeError_only_if(request, returned):
         return True
+
+
+# ---------------------------------------------------------------- C05: PSBT re-serialization
+def _gen_psbt_fields(rng):
+    g = _gen_combine(rng)
+    p = combine(g["psbts"])
+    if p.version == 2:
+        for i in p.inputs:
+            c = rng.random()
+            if c < 0.4:
+                i.sequence = rng.choice([0, 0, 1, 0xFFFFFFFE, 0xFFFFFFFF])
+            if c > 0.7:
+                i.required_height_lock_time = rng.choice([1, 499999999])
+        try:
+            p.assert_valid()
+        except Exception:  # noqa: BLE001
+            raise ValueError("skip")
+    return dict(self=p)
+
+
+@contract("btclib.psbt.psbt.Psbt.serialize", gen=_gen_psbt_fields, props="C05 C11", n_quick=200, n_thorough=4000,
+          rule="PSBT v0/v2 with unknown fields, sighash types and sequences equal to 0, scripts, preimages, silent-payment info and label 0")
+class PsbtFixedPointBounded:
+    """re-serializing a parsed PSBT is a fixed point that keeps every key-value pair; a valid
+    object parses back to an equal object"""
+
+    def post_roundtrip(self, result):
+        back = Psbt.parse(result)
+        return back == self and back.serialize() == result
+
+    def post_json_roundtrip(self):
+        return Psbt.from_dict(self.to_dict()) == self
